@@ -6,6 +6,7 @@ ALL = ["C%02d" % i for i in range(1, 21)]
 TEXT = {
  "C01": ("proof", "wf predicates (stride = dimension, whole number of coordinates, ends aligned / non-decreasing / finishing at the end) are postconditions of every constructor and setter of the level 0-2 types, and SetCoords-then-Coords returns bit-identical nested coordinates (ghost clients over the contracts), for all inputs and all loop iterations; stride-mismatch rejection with the error's fields. MultiPolygon: constructors only.", "5/C01"),
  "C02": ("proof", "Push / part accessor / NumX contracts over the list-of-parts view (part i = flat[start_i:ends_i)) for Polygon, MultiLineString, MultiPoint, incl. layout-mismatch leaves the receiver unchanged; Swap exchanges all fields. The induction over Push histories is the per-operation obligations.", "5/C02"),
+ "C08": ("proof", "Over ordered reals with +-Inf constants: geom0.Bounds is the exact per-dimension min/max (recursive min/max functions, shown to be a lower/upper bound that is attained, by induction); NewBounds/IsEmpty; extendLayout keeps every semantic dimension (Z with Z, M with M); Extend's result per semantic dimension is fmin/fmax of the old box and the geometry's box, hence order independent (two-call ghost client); collections recurse (any depth, via a global validity precondition); Overlaps/OverlapsPoint agree with closed-interval arithmetic.", "5/C08"),
  "C09": ("proof", "Over the reals: doubleArea1 = trapezoid sum = shoelace sum for closed rings (telescoping lemma by induction), Length = sum of segment lengths, additivity over the parts of level-2 geometries, zero measures for points and lines, and no panic on any well-formed geometry incl. MultiPolygons with empty polygons.", "5/C09"),
  "C16": ("proof", "Clone of every cloneable type returns field-by-field and element-by-element equal values whose backing arrays (flatCoords, ends, the endss spine and every row, min, max) are allocated inside the call and pairwise distinct; nil vs empty preserved.", "5/C16"),
 }
